@@ -236,6 +236,7 @@ func main() {
 	genPerIPClose(root, out)
 	genPipeShape(root, out)
 	genLBGuard(root, out)
+	genDialerCtx(root, out)
 }
 
 var tableNames = []string{
